@@ -125,7 +125,13 @@ func (h *clientConnectionHandler) onConnectionAccepted(connection *CqlServerConn
 			h.connections[clientAddr] = holder
 		}
 		holder.ch <- connection
-		h.anyConnChan <- connection
+		select {
+		case h.anyConnChan <- connection:
+		default:
+			// nobody is draining this queue with AcceptAny and it is full: blocking here would stop the accept loop
+			// forever with the lock held, and with it every Accept and the closing of the server
+			log.Debug().Msgf("%v: any-connection queue is full, connection only available through Accept: %v", h, connection)
+		}
 		return nil
 	}
 }
